@@ -304,6 +304,28 @@ func c14Run(c *Ctx) {
 		}, nil)
 	}
 	Flags{}.Apply()
+	// line locality in selective mode: the verdict for a line must not depend on the lines before it.  All
+	// sequences up to length 3 (quick 2) over lines that spell the same path as a dotted key, as nested
+	// documents, under operators and arrays, through the real CLI (fresh process per sequence, one line per
+	// process for the reference outputs)
+	if c.Shard < 3 {
+		mk := func(filter string) c06Sym {
+			return c06Sym{Name: filter, Text: `{"t":{"$date":"2024-05-01T10:00:00.123+00:00"},"s":"I","c":"COMMAND","id":51803,"ctx":"conn1","msg":"Slow query","attr":{"type":"command","ns":"hr.staff","command":{"find":"staff","filter":` + filter + `,"$db":"hr"},"durationMillis":5}}`, Class: "object"}
+		}
+		alpha := []c06Sym{
+			mk(`{"user.ssn":"111-22-3333"}`),
+			mk(`{"user":{"ssn":"111-22-3333"}}`),
+			mk(`{"ssn":{"$in":["111-22-3333","x"]}}`),
+			mk(`{"user":{"name":"Alice","ssn.x":"y"}}`),
+			mk(`{"name":"111-22-3333","$or":[{"ssn":"z"},{"user.name":"w"}]}`),
+			mk(`{"user.name":"Bob"}`),
+		}
+		n := 2
+		if c.Thorough() {
+			n = 3
+		}
+		c06CLI(c, alpha, n, Flags{Z: c14Families[c.Shard].re})
+	}
 }
 
 func init() {
